@@ -1,6 +1,6 @@
 """C03 - spec compilation and argument parsing always terminate without crashing."""
 import itertools, json, os, random
-from vlib import core, specgen as g, groups as G
+from vlib import core, specgen as g, groups as G, opmodel
 from props import lexcommon as lc
 
 PROP = "C03"
@@ -60,6 +60,25 @@ def run(tier, wd):
             continue
         if r.get("hang") or r.get("crash"):
             rep.violation("lexer does not return on %r: %s" % (s, r), {"engine": "lex", "s": s})
+    # (1b) the implementation-shaped model of compile + simplify + backtracking (OpModel.tla): TLC checks termination (liveness) and
+    #      agreement with the reference on nested-repetition specs x environment sets x argument vectors; the models of the code
+    #      before the two termination fixes must diverge (vacuity guard)
+    X, E = g.Arg("X"), g.Opt("-e")
+    guard1 = opmodel.run(os.path.join(wd), [{"ast": g.Seq(g.Rep(g.Optional(g.Rep(g.Optional(X)))))}], ["x"], [[]], 1, cfg="OpModelAsIsSimplify", timeout=600)[0]
+    guard2 = opmodel.run(os.path.join(wd), [{"ast": g.Seq(g.Optional(g.Rep(E)), X)}], ["x"], [["-e"]], 1, cfg="OpModelAsIsEps", timeout=600)[0]
+    if not guard1.temporal_violated or "StackBound" not in guard2.violated:
+        raise core.Broken("OpModel.tla without the termination fixes should diverge on `[[X]...]...` and `[-e...] X` (vacuity guard)")
+    opfam = nested_family(p, 12 if q else 80, rnd)
+    opalpha = ["x", "--", "-a", "-ab", "-ov", "-e"]
+    openvs = [[], ["-e"], ["-a", "-e"]]
+    sub = os.path.join(wd, "opmodel")
+    os.makedirs(sub, exist_ok=True)
+    opres, opcases = opmodel.run(sub, opfam, opalpha, openvs, 2 if q else 3)
+    rep.add_tlc(opres)
+    if not opres.finished:
+        raise core.Broken("OpModel.tla (with the fixes modelled) does not pass: %s %s\n%s" % (opres.violated, "liveness" if opres.temporal_violated else "", opres.out[-2500:]))
+    rep.cov["opmodel_cases"] = len(opcases)
+    rep.cov["opmodel_max_apply_calls"] = max(c["steps"] for c in opcases) if opcases else 0
     # (2) arbitrary byte strings and spec-alphabet strings as specs: compile through Run
     cases, kinds = [], []
     alpha = list(" \t[]()|.-=<>") + list("AXOPTIONSabeo18_#") + ["...", "--", "=<v>", "-a", "OPTIONS", "--out", "X", "Y", "[", "]", "(", ")"]
@@ -88,10 +107,27 @@ def run(tier, wd):
             for argv in lines:
                 cases.append({"id": len(cases), "prog": 0, "spec": s["str"], "env": env, "argv": argv})
                 kinds.append("nested")
+    # the cases TLC walked through the model also run on the library; a different verdict or derivation is drift (the
+    # property-level comparison is C01/C02's), a hang or crash is a violation like everywhere else
+    opstart = len(cases)
+    for c in opcases:
+        cases.append({"id": len(cases), "prog": 0, "spec": opfam[c["si"]]["str"], "env": c["env"], "argv": c["argv"]})
+        kinds.append("nested")
     pf = os.path.join(wd, "progs.json")
     with open(pf, "w") as f:
         json.dump([p], f)
     results = core.run_harness(binpath, "exec", cases, wd, env={"HARNESS_PROGS": pf}, deadline_ms=3000)
+    from vlib import refenum
+    drift = 0
+    for c, r in zip(opcases, results[opstart:]):
+        if r.get("skipped") or r.get("hang") or r.get("crash") or "ran" not in r:
+            continue
+        if r["ran"] != c["accepted"] or (r["ran"] and refenum.observed_map(r) != c["binds"]):
+            drift += 1
+            if drift <= 3:
+                rep.notes.append("drift: spec=%r env=%s argv=%s: library %s %s, OpModel %s %s" % (opfam[c["si"]]["str"], c["env"], c["argv"],
+                                 "accepts" if r["ran"] else "rejects", sorted(refenum.observed_map(r)), "accepts" if c["accepted"] else "rejects", sorted(c["binds"])))
+    rep.cov["opmodel_drift"] = drift
     cnt = {"spec_error": 0, "accepted": 0, "usage_error": 0}
     nontriv = set()
     for c, k, r in zip(cases, kinds, results):
@@ -129,12 +165,14 @@ def run(tier, wd):
     rep.cov["traces_validated_against_impl"] = len(rows) + len(cases)
     rep.cov["distinct_nontrivial"] = len(nontriv)
     rep.cov["rule"] = ("(1) every string over 17 character classes up to length %d: TLC checks that the scanner machine terminates (liveness), the library's lexer runs "
-                       "on the concretisations; (2) random byte strings up to 64 bytes and random strings over the spec alphabet, compiled and run in sacrificial worker "
+                       "on the concretisations; (1b) OpModel.tla (parser graph construction, simplify with its expanded set, sortTransitions, apply with its call stack and "
+                       "idle-cycle cut, the four matchers) is explored step by step on nested-repetition specs x 3 environment sets x all argument vectors up to the bound: "
+                       "TLC checks termination, stack and transition bounds and agreement with RefSemantics; (2) random byte strings up to 64 bytes and random strings over the spec alphabet, compiled and run in sacrificial worker "
                        "processes (3 s deadline per case, 64 MiB stack limit, crash attributed to the case after the last flushed result); (3) grammar-derived specs "
                        "with nested repetitions of optional groups and -- inside repetitions x 12-16 argument vectors x %s subsets of environment-backed options. "
                        "Outcome must be: spec error with 0 <= Pos <= len whose Error() does not panic / accepted / usage error. non-trivial = compiled" % (
                            3 if q else 4, "all 16"))
-    rep.assumptions += ["termination of simplify/apply is checked on the real code only in this check; the implementation-shaped model of both is DESIGN section 9 step 5"]
+    rep.assumptions += ["OpModel.tla is a model of the algorithm as read from the sources; a library that differs from it without breaking a property is reported as drift only"]
     return rep.finish()
 
 
